@@ -41,6 +41,73 @@ class Node(object):
         return '<%d %s L%d %s>' % (self.id, self.kind, self.lineno, t)
 
 
+def _local_atoms(e, value, out):
+    """constraints (text, bool) a test outcome puts on plain local names; tests that involve calls or attributes constrain nothing
+    (two evaluations of self.isalive() may differ)"""
+    if isinstance(e, ast.UnaryOp) and isinstance(e.op, ast.Not):
+        return _local_atoms(e.operand, not value, out)
+    if isinstance(e, ast.BoolOp):
+        if (isinstance(e.op, ast.And) and value) or (isinstance(e.op, ast.Or) and not value):
+            for v in e.values:
+                _local_atoms(v, value, out)
+        return
+    if any(isinstance(x, (ast.Call, ast.Attribute, ast.Subscript, ast.Await, ast.Yield)) for x in ast.walk(e)):
+        return
+    if isinstance(e, ast.Compare) and len(e.ops) == 1:
+        op = e.ops[0]
+        a, b = src(e.left), src(e.comparators[0])
+        neg = {ast.IsNot: 'is', ast.NotEq: '==', ast.NotIn: 'in'}
+        pos = {ast.Is: 'is', ast.Eq: '==', ast.In: 'in'}
+        if type(op) in neg:
+            k, value = neg[type(op)], not value
+        elif type(op) in pos:
+            k = pos[type(op)]
+        else:
+            out.append((src(e), value, set(x.id for x in ast.walk(e) if isinstance(x, ast.Name))))
+            return
+        if k == '==' and a > b:
+            a, b = b, a
+        out.append(('%s %s %s' % (a, k, b), value, set(x.id for x in ast.walk(e) if isinstance(x, ast.Name))))
+        return
+    if isinstance(e, ast.Name):
+        out.append((e.id, value, {e.id}))
+
+
+def _feasible(path, assume=()):
+    """no two tests on the way contradict each other (same atom, opposite outcome, no assignment to its names in between);
+    *assume*: facts (atom text, value, names) that hold at the start of the path"""
+    facts = dict((a, (v, set(names))) for a, v, names in assume)
+    for i, n in enumerate(path[:-1]):
+        nxt = path[i + 1]
+        if n.kind == 'test' and n.ast is not None:
+            lab = [l for t, l in n.succ if t is nxt and l in ('true', 'false')]
+            if len(lab) == 1:
+                cs = []
+                _local_atoms(n.ast, lab[0] == 'true', cs)
+                for a, v, names in cs:
+                    if a in facts and facts[a][0] != v:
+                        return False
+                    facts[a] = (v, names)
+        elif n.ast is not None and n.kind in ('stmt', 'for', 'with', 'except') and not (i == 0 and assume):
+            # (the assumed facts describe the state AFTER the first node of the path)
+            killed = set()
+            for x in ast.walk(n.ast) if n.kind == 'stmt' else ast.walk(n.ast.target if n.kind == 'for' else n.ast):
+                if isinstance(x, ast.Name) and isinstance(x.ctx, (ast.Store, ast.Del)):
+                    killed.add(x.id)
+            if n.kind == 'except' and getattr(n.ast, 'name', None):
+                killed.add(n.ast.name)
+            if n.kind == 'with':
+                for it in n.ast.items:
+                    if it.optional_vars is not None:
+                        for x in ast.walk(it.optional_vars):
+                            if isinstance(x, ast.Name):
+                                killed.add(x.id)
+            if killed:
+                for a in [a for a, (v, names) in facts.items() if names & killed]:
+                    del facts[a]
+    return True
+
+
 class CFG(object):
     def __init__(self, fi):
         self.fi = fi
@@ -93,7 +160,53 @@ class CFG(object):
     def live_nodes(self, skip_labels=()):
         return self.reachable(self.entry, skip_labels=skip_labels)
 
-    def path(self, start, goal, avoid=(), skip_labels=(), include_start=True, avoid_edges=()):
+    def path(self, start, goal, avoid=(), skip_labels=(), include_start=True, avoid_edges=(), assume=()):
+        """A witness path start -> goal avoiding *avoid* that is not ruled out by the tests on LOCAL NAMES it passes
+        (`idx is None` false then `idx is not None` false without an assignment to idx in between is no path); None if there
+        is none.  The shortest candidate is tried first; only when it is contradictory are other simple paths enumerated
+        (bounded: if the bound is hit the candidate is returned, i.e. the answer errs on the side of reporting)."""
+        p = self._path_bfs(start, goal, avoid, skip_labels, include_start, avoid_edges)
+        if p is None or _feasible(p, assume):
+            return p
+        goals = set(goal) if isinstance(goal, (set, list, tuple, frozenset)) else {goal}
+        q = self._path_dfs(start, goals, set(avoid), skip_labels, include_start, set(avoid_edges), assume=assume)
+        return p if q == 'limit' else q
+
+    def _path_dfs(self, start, goals, avoid, skip_labels, include_start, avoid_edges, limit=6000, assume=()):
+        # backward reachability to prune
+        can = set(goals)
+        st = list(goals)
+        while st:
+            x = st.pop()
+            for pr, l in x.pred:
+                if l in skip_labels or (pr, l) in avoid_edges or pr in can or (pr in avoid and pr is not start):
+                    continue
+                can.add(pr)
+                st.append(pr)
+        count = [0]
+
+        def walk(n, trail, first):
+            count[0] += 1
+            if count[0] > limit:
+                return 'limit'
+            if n in goals and not first:
+                return trail if _feasible(trail, assume) else None
+            if len(trail) > 1 and not _feasible(trail, assume):
+                return None
+            for t, l in n.succ:
+                if l in skip_labels or (n, l) in avoid_edges or t in avoid or t not in can:
+                    continue
+                if t in trail and not (t is start and t in goals):
+                    continue
+                r = walk(t, trail + [t], False)
+                if r is not None:
+                    return r
+            return None
+        if include_start and start in goals:
+            return [start]
+        return walk(start, [start], True)
+
+    def _path_bfs(self, start, goal, avoid=(), skip_labels=(), include_start=True, avoid_edges=()):
         """A shortest witness path start -> goal (goal: node or set) avoiding
         *avoid*; None if there is none.  With include_start=False the path has
         at least one edge (start itself is neither tested against the goals nor
